@@ -153,8 +153,8 @@ Num txs: {"unknown" if self.txs is None else len(self.txs)}
         target = self.target()
         if (mantissa & 0x800000) or target == 0 or target >= 2**256:
             return False
-        # return whether this integer is less than the target
-        return proof < target
+        # return whether this integer is at most the target (consensus: hash <= target)
+        return proof <= target
 
     def validate_merkle_root(self):
         """Gets the merkle root of the tx_hashes and checks that it's
